@@ -60,90 +60,156 @@ func c17Valid(c *pb.Configuration) bool {
 	return ok
 }
 
+// c17State: the replayed handler calls of one Config.
+type c17State struct {
+	h          *zz.H
+	model      map[string]c17Entry
+	calls      []string
+	adds, upds map[string]bool
+	c          *Config
+	cur        *pb.Configuration // deep copy of the last accepted configuration
+}
+
+func c17New(h *zz.H) *c17State {
+	st := &c17State{h: h, model: map[string]c17Entry{}, adds: map[string]bool{}, upds: map[string]bool{}}
+	// the replayed state keeps deep copies taken at call time: what a handler was told, not
+	// whatever the objects it was handed turn into later
+	ent := func(u Update) c17Entry {
+		e := c17Entry{}
+		if u.Target != nil {
+			e.t = proto.Clone(u.Target).(*pb.Target)
+		}
+		if u.Request != nil {
+			e.r = proto.Clone(u.Request).(*gpb.SubscribeRequest)
+		}
+		return e
+	}
+	hd := Handler{
+		Add: func(u Update) {
+			_, had := st.model[u.Name]
+			h.Assert(!had, "C17: Add only for a target the replayed state does not hold")
+			st.model[u.Name] = ent(u)
+			st.calls = append(st.calls, u.Name)
+			st.adds[u.Name] = true
+		},
+		Update: func(u Update) {
+			_, had := st.model[u.Name]
+			h.Assert(had, "C17: Update only for a target the replayed state holds")
+			st.model[u.Name] = ent(u)
+			st.calls = append(st.calls, u.Name)
+			st.upds[u.Name] = true
+		},
+		Delete: func(name string) {
+			_, had := st.model[name]
+			h.Assert(had, "C17: Delete only for a target the replayed state holds")
+			delete(st.model, name)
+			st.calls = append(st.calls, name)
+		},
+	}
+	st.c = NewConfig(hd)
+	return st
+}
+
+// load performs one Load and checks it against the property.
+func (st *c17State) load(cfg *pb.Configuration) {
+	h, c, cur := st.h, st.c, st.cur
+	valid := c17Valid(cfg)
+	accept := zz.And(valid, zz.Or(cur == nil, cfg.Revision > cur.GetRevision()))
+	before := c.Current()
+	st.calls = nil
+	for n := range st.adds {
+		delete(st.adds, n)
+	}
+	for n := range st.upds {
+		delete(st.upds, n)
+	}
+	err := c.Load(cfg)
+	h.Trace("load", err == nil, len(st.calls))
+	h.Assert((err == nil) == accept, "C17: a load is applied iff the configuration is valid and its revision strictly greater")
+	now := c.Current()
+	if err != nil {
+		h.Assert(len(st.calls) == 0, "C17: a rejected load runs no handler")
+		h.Assert(proto.Equal(before, now), "C17: a rejected load changes nothing")
+		return
+	}
+	for n := range st.adds {
+		h.Assert(!st.upds[n], "C17: never both Add and Update for one target in one load")
+	}
+	// unchanged targets get no call
+	for name, nt := range cfg.Target {
+		ot, had := cur.GetTarget()[name]
+		if !had {
+			continue
+		}
+		same := zz.And(proto.Equal(ot, nt), proto.Equal(cur.GetRequest()[ot.GetRequest()], cfg.GetRequest()[nt.GetRequest()]))
+		called := false
+		for _, cn := range st.calls {
+			called = zz.Or(called, cn == name)
+		}
+		h.Assert(zz.Implies(same, !called), "C17: a target whose settings and request are unchanged produces no handler call")
+	}
+	st.cur = proto.Clone(cfg).(*pb.Configuration)
+	h.Assert(proto.Equal(now, cfg), "C17: the current configuration is the accepted one")
+	// the replayed state equals the current configuration
+	h.Assert(len(st.model) == len(cfg.Target), "C17: replayed state has exactly the current targets")
+	for name, t := range cfg.Target {
+		e, ok := st.model[name]
+		h.Assert(ok, "C17: every current target is in the replayed state")
+		if ok {
+			h.Assert(proto.Equal(e.t, t), "C17: replayed target settings equal the current ones")
+			h.Assert(proto.Equal(e.r, cfg.Request[t.Request]), "C17: replayed subscription request equals the current one")
+		}
+	}
+}
+
 // VerifC17_Loads: a load is applied iff valid and strictly newer; replaying the handler calls of
 // the accepted loads yields exactly the current configuration; unchanged targets get no call.
 func VerifC17_Loads(h *zz.H) {
 	T, R, N := h.Param("T", 2), h.Param("R", 2), h.Param("N", 2)
-	model := map[string]c17Entry{}
-	var calls []string
-	adds, upds := map[string]bool{}, map[string]bool{}
-	hd := Handler{
-		Add: func(u Update) {
-			_, had := model[u.Name]
-			h.Assert(!had, "C17: Add only for a target the replayed state does not hold")
-			model[u.Name] = c17Entry{u.Target, u.Request}
-			calls = append(calls, u.Name)
-			adds[u.Name] = true
-		},
-		Update: func(u Update) {
-			_, had := model[u.Name]
-			h.Assert(had, "C17: Update only for a target the replayed state holds")
-			model[u.Name] = c17Entry{u.Target, u.Request}
-			calls = append(calls, u.Name)
-			upds[u.Name] = true
-		},
-		Delete: func(name string) {
-			_, had := model[name]
-			h.Assert(had, "C17: Delete only for a target the replayed state holds")
-			delete(model, name)
-			calls = append(calls, name)
-		},
-	}
-	c := NewConfig(hd)
-	var cur *pb.Configuration
+	st := c17New(h)
 	for k := 0; k < N; k++ {
 		cfg := c17Config(h, "c", T, R)
-		valid := c17Valid(cfg)
 		if h.Param("VALID", 0) == 1 && k < N-1 {
 			// all but the last load are assumed valid: invalid ones are rejected without effect,
 			// which the last (unconstrained) load of every sequence decides
-			h.Assume(valid)
+			h.Assume(c17Valid(cfg))
 		}
-		accept := zz.And(valid, zz.Or(cur == nil, cfg.Revision > cur.GetRevision()))
-		before := c.Current()
-		calls = nil
-		for n := range adds {
-			delete(adds, n)
-		}
-		for n := range upds {
-			delete(upds, n)
-		}
-		err := c.Load(cfg)
-		h.Trace("load", err == nil, len(calls))
-		h.Assert((err == nil) == accept, "C17: a load is applied iff the configuration is valid and its revision strictly greater")
-		now := c.Current()
-		if err != nil {
-			h.Assert(len(calls) == 0, "C17: a rejected load runs no handler")
-			h.Assert(proto.Equal(before, now), "C17: a rejected load changes nothing")
-			continue
-		}
-		for n := range adds {
-			h.Assert(!upds[n], "C17: never both Add and Update for one target in one load")
-		}
-		// unchanged targets get no call
-		for name, nt := range cfg.Target {
-			ot, had := cur.GetTarget()[name]
-			if !had {
-				continue
-			}
-			same := zz.And(proto.Equal(ot, nt), proto.Equal(cur.GetRequest()[ot.GetRequest()], cfg.GetRequest()[nt.GetRequest()]))
-			called := false
-			for _, cn := range calls {
-				called = zz.Or(called, cn == name)
-			}
-			h.Assert(zz.Implies(same, !called), "C17: a target whose settings and request are unchanged produces no handler call")
-		}
-		cur = cfg
-		h.Assert(proto.Equal(now, cfg), "C17: the current configuration is the accepted one")
-		// the replayed state equals the current configuration
-		h.Assert(len(model) == len(cfg.Target), "C17: replayed state has exactly the current targets")
-		for name, t := range cfg.Target {
-			e, ok := model[name]
-			h.Assert(ok, "C17: every current target is in the replayed state")
-			if ok {
-				h.Assert(proto.Equal(e.t, t), "C17: replayed target settings equal the current ones")
-				h.Assert(proto.Equal(e.r, cfg.Request[t.Request]), "C17: replayed subscription request equals the current one")
-			}
+		st.load(cfg)
+	}
+}
+
+// VerifC17_ReadModifyWrite: the usual way a configuration is edited — take Current(), edit the
+// copy in place (request bodies, target settings, removal of a target), bump the revision (or
+// not) and Load it. Editing the copy changes nothing until it is loaded; the load is then
+// announced as the exact diff.
+func VerifC17_ReadModifyWrite(h *zz.H) {
+	T, R := h.Param("T", 2), h.Param("R", 2)
+	st := c17New(h)
+	cfg := c17Config(h, "c", T, R)
+	h.Assume(c17Valid(cfg))
+	st.load(cfg)
+	frozen := proto.Clone(st.c.Current()).(*pb.Configuration)
+	next := st.c.Current()
+	edited := false
+	for _, r := range next.Request {
+		if h.Range("edit_request", 0, 1) == 1 {
+			r.GetSubscribe().Prefix.Target = h.Atom("new_reqbody")
+			edited = true
 		}
 	}
+	for name, t := range next.Target {
+		switch h.Range("edit_target", 0, 2) {
+		case 1:
+			t.Dialer = h.Atom("new_dialer")
+			edited = true
+		case 2:
+			delete(next.Target, name)
+			edited = true
+		}
+	}
+	h.Cover("configuration edited through a copy")
+	_ = edited
+	h.Assert(proto.Equal(st.c.Current(), frozen), "C17: editing the copy returned by Current changes nothing until it is loaded")
+	next.Revision = h.Int64("next_rev")
+	st.load(next)
 }
